@@ -129,19 +129,30 @@ def register_rules(rep, cx):
 def helper_symbol_rules(rep, cc):
     """R08.k: registration name == import name (also an obligation of C12: an unresolved import panics inside cranelift-jit)"""
     rk = rep.rule("R08.k", "Cranelift: the symbol name under which helper k is registered == the import name declared for key k; the func ref is filed under k", floor=3)
-    reg_site = _name_site(cc.F, "cranelift::CraneliftCompiler::new", "JITBuilder::symbol", 1)
-    dec_site = _name_site(cc.F, "cranelift::CraneliftCompiler::build_function_prelude", "::declare_function", 1)
+    def site_of(suffix):
+        """the one call of `suffix` in the Cranelift back end whose name argument is a formatted string (the function
+        that contains it may have any name)"""
+        found = []
+        for p, fn in sorted(cc.F.fns.items()):
+            if p.startswith("cranelift::") and fn.get("thir") and "{closure" not in p and \
+                    any(x.get("k") == "call" and re.search(re.escape(suffix) + r"s?$", callee_path(x) or "") for x in walk(fn["thir"]["body"])):
+                st = _name_site(cc.F, p, suffix, 1)
+                if st is not None and st.get("template") is not None:
+                    found.append((p, st))
+        return found[0] if len(found) == 1 else (None, None)
+    reg_fn, reg_site = site_of("JITBuilder::symbol")
+    dec_fn, dec_site = site_of("::declare_function")
     norm = lambda t: re.sub(r"\{[A-Za-z_0-9]*(:[^}]*)?\}", lambda m: "{" + (m.group(1) if m.group(1) and m.group(1) != ":" else "") + "}", t)
     rep.ob(rk, "template", reg_site is not None and dec_site is not None and norm(reg_site["template"]) == norm(dec_site["template"]),
            "format template of the helper symbol name at registration and at import declaration",
            expected="identical templates", found=[reg_site and reg_site["template"], dec_site and dec_site["template"]])
     def keyed(site, fn_path):
         return site is not None and len(site["args"]) == 1 and site["args"][0][1] in ("&u32", "u32") and _key_of_helpers(cc.F, fn_path, site["arg_ids"][0])
-    rep.ob(rk, "argument", keyed(reg_site, "cranelift::CraneliftCompiler::new") and keyed(dec_site, "cranelift::CraneliftCompiler::build_function_prelude"),
+    rep.ob(rk, "argument", keyed(reg_site, reg_fn) and keyed(dec_site, dec_fn),
            "argument formatted into the name", expected="at both sites the one argument is the key (u32) bound by iterating over the helper table",
            found=[reg_site and reg_site["args"], dec_site and dec_site["args"]])
     ins = None
-    fnp = cc.F.fns.get("cranelift::CraneliftCompiler::build_function_prelude")
+    fnp = cc.F.fns.get(dec_fn) if dec_fn else None
     if fnp and dec_site:
         for n in walk(fnp["thir"]["body"]):
             if n.get("k") == "call" and (callee_path(n) or "").endswith("::insert") and "helper_func_refs" in repr(n["args"][0])[:2000]:
